@@ -93,6 +93,7 @@ pub use oracle::cmp::*;
 
 pub fn basic_health(got: &Outcome) -> Result<&Trace, String> {
     match got {
+        Outcome::NotRun => Err("not run: an earlier case of the batch hung or crashed the lexer process".into()),
         Outcome::Hang => Err("lexer made no progress within the per-case budget (hang)".into()),
         Outcome::Crash(s) => Err(format!("lexer process died: {}", s)),
         Outcome::Trace(t) => {
@@ -380,6 +381,7 @@ pub fn replay_json(prop: &str, ctx: &SpecCtx, case: &Case, reason: &str, exp: &T
             Outcome::Trace(t) => json!({"a": fmt_run(&t.a), "b": t.b.as_ref().map(fmt_run), "panic": t.panic}),
             Outcome::Hang => json!("HANG"),
             Outcome::Crash(s) => json!(format!("CRASH {}", s)),
+            Outcome::NotRun => json!("NOT RUN"),
         },
     })
 }
